@@ -77,6 +77,42 @@ def rd64 (a b c d e f g h : UInt8) : UInt64 :=
   (d.toUInt64 <<< (32 : UInt64)) ||| (e.toUInt64 <<< (24 : UInt64)) ||| (f.toUInt64 <<< (16 : UInt64)) |||
   (g.toUInt64 <<< (8 : UInt64)) ||| h.toUInt64
 
+/-! ### Buffer writes and big-endian accessors as the generated function translations use them
+(`Gen/Funcs.lean`): `panic` exactly where Go panics -/
+
+/-- `d[i] = v` -/
+def Bytes.set (d : Bytes) (i : Nat) (v : UInt8) : Res Bytes :=
+  if i < d.length then .ok (List.set d i v) else .panic "index out of range"
+
+/-- `binary.BigEndian.PutUint16(d[lo:hi], v)`: the slice expression is checked against the length (= capacity for a
+buffer from `make([]byte, n)`), then `PutUint16` needs two bytes -/
+def Bytes.putBE16 (d : Bytes) (lo hi : Nat) (v : UInt16) : Res Bytes :=
+  if lo ≤ hi ∧ hi ≤ d.length then
+    (if hi - lo < 2 then .panic "index out of range" else .ok (d.take lo ++ be16 v ++ d.drop (lo + 2)))
+  else .panic "slice bounds out of range"
+
+/-- `binary.BigEndian.PutUint32(d[lo:hi], v)` -/
+def Bytes.putBE32 (d : Bytes) (lo hi : Nat) (v : UInt32) : Res Bytes :=
+  if lo ≤ hi ∧ hi ≤ d.length then
+    (if hi - lo < 4 then .panic "index out of range" else .ok (d.take lo ++ be32 v ++ d.drop (lo + 4)))
+  else .panic "slice bounds out of range"
+
+/-- `binary.BigEndian.Uint16(d[lo:hi])` -/
+def Bytes.rdBE16 (d : Bytes) (lo hi : Nat) : Res UInt16 :=
+  if lo ≤ hi ∧ hi ≤ d.length then
+    (match (d.take hi).drop lo with
+     | a :: b :: _ => .ok (rd16 a b)
+     | _ => .panic "index out of range")
+  else .panic "slice bounds out of range"
+
+/-- `binary.BigEndian.Uint32(d[lo:hi])` -/
+def Bytes.rdBE32 (d : Bytes) (lo hi : Nat) : Res UInt32 :=
+  if lo ≤ hi ∧ hi ≤ d.length then
+    (match (d.take hi).drop lo with
+     | a :: b :: c :: e :: _ => .ok (rd32 a b c e)
+     | _ => .panic "index out of range")
+  else .panic "slice bounds out of range"
+
 /-- `a <<< k ||| b = a * 2^k + b` when `b < 2^k` -/
 theorem shl_or (a b k : Nat) (hb : b < 2 ^ k) : a <<< k ||| b = a * 2 ^ k + b := by
   rw [← Nat.shiftLeft_add_eq_or_of_lt hb, Nat.shiftLeft_eq]
